@@ -116,13 +116,15 @@ AtEnd == l <= Len(Rec) /\\ Rec[l].kind = "end" /\\ ~SilentPending /\\ PrevMatche
 EndViol == IF AtEnd THEN ObsQuiescent(h, QS, MC_Single).viol ELSE {}
 DebugL == IF "DEBUGL" \\in DOMAIN IOEnv THEN IOEnv.DEBUGL ELSE "0"
 Collect == /\\ TLCSet(2, TLCGet(2) \\cup {l})
+           /\\ TLCSet(4, TLCGet(4) \\cup {pc[p] : p \\in Procs})
            /\\ (ToString(l) = DebugL => PrintT(<<"DEBUG", pc, qstate, jobs, schedule, jkind, jaw, gfired, gwaker, fres, fwaker, ready, cwait, cnotif, parkTok, rv, h>>))
            /\\ (AtEnd => TLCSet(1, TLCGet(1) \\cup {l}))
            /\\ ((h.viol \\cup EndViol) # {} => TLCSet(3, TLCGet(3) \\cup {<<l, h.viol \\cup EndViol>>}))
-ASSUME TLCSet(1, {}) /\\ TLCSet(2, {}) /\\ TLCSet(3, {})
+ASSUME TLCSet(1, {}) /\\ TLCSet(2, {}) /\\ TLCSet(3, {}) /\\ TLCSet(4, {})
 Report == /\\ PrintT(<<"ACCEPTED", TLCGet(1)>>)
           /\\ PrintT(<<"REACHED", TLCGet(2)>>)
           /\\ PrintT(<<"VIOLS", TLCGet(3)>>)
+          /\\ PrintT(<<"LABELS", TLCGet(4)>>)
 ====
 ''' % {'name': name, 'consts': scen.mc_constants(scn, fixes), 'silent': ', '.join('"%s"' % s for s in silent), 'allowed': allowed, 'procstep': procstep}
     cfg = 'SPECIFICATION TraceSpec\n' + scen.CONST_CFG + 'CONSTRAINT Collect\nPOSTCONDITION Report\nCHECK_DEADLOCK FALSE\n'
